@@ -51,6 +51,8 @@ class IfWriteHandler(AbstractWriteHandler):
         self.ended_on_jump = True
         # The vertex the first elseif-branch that does not leave by a jump continues at (the end label of the if)
         self._v_after_elseif_branches: Vertex | None = None
+        # All vertices at which a branch of this if (or the path around it) continues after the if
+        self._continuations: list[Vertex] = []
 
     def write_content(self) -> Vertex | None:
         op: SsbLabelJump = self.start_vertex["op"]
@@ -77,6 +79,8 @@ class IfWriteHandler(AbstractWriteHandler):
                     check_end_block=self.check_end_block,
                 )
                 v_after_if_branch = if_branch_handler.write_content()
+            if v_after_if_branch is not None:
+                self._continuations.append(v_after_if_branch)
             else_ends_on_common_vtx = True
             v_after_else_branch = None
             if not (
@@ -100,6 +104,10 @@ class IfWriteHandler(AbstractWriteHandler):
                             check_end_block=self.check_end_block,
                         )
                         v_after_else_branch = else_branch_handler.write_content()
+                    if v_after_else_branch is not None:
+                        self._continuations.append(v_after_else_branch)
+            else:
+                self._continuations.append(else_edge.target_vertex)
 
             # Those must be the same, either None or a common vertex
             # ... or either of them must end on a jump, then it's also okay if one of them is None but the other not.
@@ -110,6 +118,10 @@ class IfWriteHandler(AbstractWriteHandler):
                 or else_branch_handler.last_handler_in_block.ended_on_jump  # type: ignore
                 or v_after_if_branch == v_after_else_branch
             ), f"Invalid if-structure for if {m.if_id}"
+
+            if len(set(v.index for v in self._continuations)) > 1:
+                # The text continues at one place after the if, control would not.
+                raise ValueError(f"The branches of if {m.if_id} continue at different operations.")
 
             if v_after_if_branch is None:
                 if else_ends_on_common_vtx and else_edge is not None:
@@ -218,6 +230,8 @@ class IfWriteHandler(AbstractWriteHandler):
                     ).write_content()
                     if self._v_after_elseif_branches is None:
                         self._v_after_elseif_branches = v_after_elseif_branch
+                    if v_after_elseif_branch is not None:
+                        self._continuations.append(v_after_elseif_branch)
                 next_vertex_ends = isinstance(else_edge.target_vertex["op"], SsbLabel) and any(
                     isinstance(mx, IfEnd) and m.if_id == mx.if_id for mx in else_edge.target_vertex["op"].markers
                 )
@@ -233,6 +247,7 @@ class IfWriteHandler(AbstractWriteHandler):
                     if isinstance(eop, SsbLabel) and eop.id in self.decompiler.labels_already_printed:
                         return else_edge
                     else:
+                        self._continuations.append(else_edge.target_vertex)
                         return None
                 else:
                     return None
